@@ -349,7 +349,7 @@ def check(case, res):
                 if run.get("ret") != want_ret:
                     vs.append(Violation("nest:result", "program result %r, expected %r" % (run.get("ret"), want_ret), case))
         else:
-            if run.get("r") != "rerr" or run.get("msg") != detail.msg:
+            if run.get("r") != "rerr" or (detail.no == 1 and run.get("msg") != detail.msg) or (detail.no is not None and run.get("no") != detail.no):
                 vs.append(Violation("nest:error-report", "expected error %s reported to the host, got %s" % (detail.name, run), case))
         if out != want:
             vs.append(Violation("nest:trace:%s" % m["where"], "printed %r, expected %r" % (out, want), case))
